@@ -119,6 +119,16 @@ def make_on_path(E, obl):
             res.ctx.stats['solver_s'] += time.time() - t0
             res.ctx.stats['queries'] += 1
             out['checked'] += 1
+            if r == z3.unknown:
+                # a loaded machine can push one query over the per-query budget: retry once with ten times the budget
+                try:
+                    s.set('timeout', 200000)
+                    t1 = time.time()
+                    r = s.check() if Pf is False else s.check(z3.Not(Pf))
+                    res.ctx.stats['solver_s'] += time.time() - t1
+                    res.ctx.stats['queries'] += 1
+                finally:
+                    s.set('timeout', 20000)
             if r == z3.unsat:
                 continue
             if r == z3.unknown or label.startswith('oracle-precondition'):
